@@ -583,8 +583,18 @@ def same_loader_reload(m, inst, acc, spec, fault, res, ff, verbose):
     inst.active = False
     report_problems(acc, spec, fault, probs, "reload-with-the-failed-ConfigLoader")
     cfg = ("ok", tree(val[0])) if st == "ok" else ("raised", val)
+
+    def has_package(t):
+        return t[0] == "P" or any(has_package(c) for sl in t[1:] for c in sl)
     if cfg == ff[2]:
         acc.extra["observed_reload_with_failed_ConfigLoader_same_outcome"] += 1
+    elif not has_package(tuple_tree(spec["config"])):
+        # no %import anywhere: the loader has no designed per-loader state (its private derived schema
+        # only exists after an %import), so the failed load must have left nothing behind in it either
+        acc.violation("later-load-differs", {"spec": spec, "fault": fault}, cfg, ff[2],
+                      tags={"kind": "later-load-differs", "family": spec["family"],
+                            "after": "fault-in-" + fault[0], "loader": "same ConfigLoader instance (no %import)"},
+                      size=_size(spec, fault))
     else:
         acc.extra["observed_reload_with_failed_ConfigLoader_differs_after_fault_in_" + fault[0]] += 1
         if verbose:
